@@ -14,7 +14,7 @@ import (
 
 func init() {
 	register("C20",
-		"TMO-1: in Sent and Received every state change (field store, map update, delete, call of a function that mutates the TimeoutManager or a TimeoutBooster) is dominated by the false leg of the useStaticTimeout test; useStaticTimeout/resendTimeout are written only by the constructor, option closures and updateResendTimeoutUnsafe, which is called from Received only; the resend booster is built after all options ran, from the configured timeout. TMO-2: every value stored to resendTimeout / passed to resendBooster.Reset is proved >= minimumResendTimeout by interval analysis (guard + phi), default >= minimum as constants, boostCount only ever ++ or =0 and boostPercent only set from values guarded > 0. TMO-3: under the fact 'resent' Sent inserts no sample, deletes the sample of that sequence number / zeroes the SYN time; a fresh sample is recorded only under !resent; Received consumes (deletes/zeroes) the sample on the path that uses it and derives the new timeout from that sample only. TMO-4: Boost increments boostCount once per call and only past the frequency-limit test; the resend booster is constructed with the limit on. TMO-5: updateResendTimeoutUnsafe always resets the resend booster with the value it stored; Reset zeroes boostCount and replaces originalTimeout. Not decided: float32 rounding of the boost product; matching of a late duplicate ACK to the right sample.",
+		"TMO-1: in Sent and Received every state change (field store, map update, delete, call of a function that mutates the TimeoutManager or a TimeoutBooster) is dominated by the false leg of the useStaticTimeout test; useStaticTimeout/resendTimeout are written only by the constructor, option closures and updateResendTimeoutUnsafe, which is called from Received only; the resend booster is built after all options ran, from the configured timeout. TMO-2: every value stored to resendTimeout / passed to resendBooster.Reset is proved >= minimumResendTimeout by interval analysis (guard + phi), default >= minimum as constants, boostCount only ever ++ or =0 and boostPercent only set from values guarded > 0. TMO-3: under the fact 'resent' Sent inserts no sample, deletes the sample of that sequence number / zeroes the SYN time; a fresh sample is recorded only under !resent; Received consumes (deletes/zeroes) the sample on the path that uses it and derives the new timeout from that sample only. TMO-4: Boost increments boostCount once per call and only past the frequency-limit test; the resend booster is constructed with the limit on. TMO-5: updateResendTimeoutUnsafe always resets the resend booster with the value it stored; Reset zeroes boostCount and replaces originalTimeout. TMO-6: the connection reports truthfully: sendPacket calls Sent(msg, isResend) with its own parameters after the successful transport send on every success path; the queue's retransmission callbacks (called from queue.resend only) report isResend = true and the first transmission in the send loop false; the receive loop reports every parsed packet before dispatching on its type; the handshakes report their SYN with the restart flag. Not decided: float32 rounding of the boost product; matching of a late duplicate ACK to the right sample.",
 		[]string{"time.Time zero value / IsZero, map delete and lookup have their language semantics"},
 		runC20)
 }
@@ -387,6 +387,7 @@ func runC20(c *Checker) {
 	c.floor("TMO-3", 6)
 	c.floor("TMO-4", 4)
 	c.floor("TMO-5", 3)
+	ruleTMO6(c)
 }
 
 func returnBlock(fn *ssa.Function) *ssa.BasicBlock {
@@ -543,4 +544,211 @@ func checkSamples(c *Checker, sent, received, update *ssa.Function, fSentTimes, 
 		}
 		c.decide(okk, "TMO-3", key, instrPos(call), "derived from a fresh, consumed sample: "+why, "the timeout is recomputed from a sample that is not fresh or not consumed: "+why)
 	})
+}
+
+// ruleTMO6: the timeout manager only sees the truth if the connection reports to it truthfully.
+//
+//	(a) sendPacket reports every packet that went out: each success return is preceded by
+//	    Sent(msg, isResend) with exactly its own two parameters, and only after sendToStream
+//	    succeeded;
+//	(b) the retransmission path says so: the sendPkt callbacks handed to the queue (called only
+//	    from queue.resend) pass `true` as the resend flag, the first transmission in the send loop
+//	    passes `false`;
+//	(c) the receive loop reports every successfully parsed packet (Received dominates the
+//	    dispatch on the packet type);
+//	(d) in the handshakes the resend flag given to Sent is the restart flag (false on the first
+//	    SYN, true after a timeout), never a constant.
+func ruleTMO6(c *Checker) {
+	w := c.w
+	sp := w.Func("(*gbn.GoBackNConn).sendPacket")
+	sl := w.Func("(*gbn.GoBackNConn).sendPacketsForever")
+	rl := w.Func("(*gbn.GoBackNConn).receivePacketsForever")
+	sent := w.Func("(*gbn.TimeoutManager).Sent")
+	recvd := w.Func("(*gbn.TimeoutManager).Received")
+	resend := w.Func("(*gbn.queue).resend")
+	if sp == nil || sl == nil || rl == nil || sent == nil || recvd == nil || resend == nil {
+		c.anchorFail("sendPacket / sendPacketsForever / receivePacketsForever / TimeoutManager.Sent / Received / queue.resend")
+		return
+	}
+	// (a)
+	{
+		calls := findCalls(sp, func(ci ssa.CallInstruction) bool { return ci.Common().StaticCallee() == sent })
+		okk := len(calls) == 1
+		why := fmt.Sprintf("%d Sent calls", len(calls))
+		if okk {
+			call := calls[0]
+			a := call.Common().Args
+			argOK := len(a) == 3 && a[1] == ssa.Value(sp.Params[2]) && a[2] == ssa.Value(sp.Params[3])
+			// after a successful transport send
+			var sendErr ssa.Value
+			for _, ci := range findCalls(sp, func(ci ssa.CallInstruction) bool {
+				f := chanField(ci.Common().Value)
+				return f != nil && f.Name() == "sendToStream"
+			}) {
+				if v, ok := ci.(ssa.Value); ok {
+					sendErr = v
+				}
+			}
+			afterSend := sendErr != nil && hasFact(call.Block(), func(f Fact) bool { return factRel(f, isValue(sendErr), isNilConst) == "==" })
+			skip := ""
+			allInstrs(sp, func(in ssa.Instruction) {
+				ret, ok := in.(*ssa.Return)
+				if !ok || skip != "" {
+					return
+				}
+				for _, v := range expandValues(ret.Results[0]) {
+					if isNilConst(v) && pathFromEntry(sp, ret, func(i2 ssa.Instruction) bool { return i2 == ssa.Instruction(call) }) {
+						skip = w.pos(instrPos(ret))
+					}
+				}
+			})
+			okk = argOK && afterSend && skip == ""
+			why = fmt.Sprintf("arguments are (msg, isResend): %v, only after a successful sendToStream: %v, success return without it: %q", argOK, afterSend, skip)
+		}
+		c.decide(okk, "TMO-6", "sendPacket|reports every sent packet with its resend flag", sp.Pos(), "Sent(msg, isResend) after the successful transport send, on every success path",
+			"sendPacket does not report exactly what it sent to the timeout manager ("+why+"): samples are missing, taken for packets that never went out, or the resend flag is lost")
+	}
+	// (b) resend flag at the call sites of sendPacket
+	flagOf := func(ci ssa.CallInstruction) (bool, bool) {
+		a := ci.Common().Args
+		if len(a) < 4 {
+			return false, false
+		}
+		k, ok := a[3].(*ssa.Const)
+		if !ok || !isBoolConst(k) {
+			return false, false
+		}
+		return isBoolConstVal(a[3], true), true
+	}
+	nResendCb, nFirst := 0, 0
+	for _, fn := range w.Funcs {
+		if w.pkgShort(fn) != targetGBN {
+			continue
+		}
+		for _, ci := range findCalls(fn, func(ci ssa.CallInstruction) bool { return ci.Common().StaticCallee() == sp }) {
+			isData := false
+			for _, a := range ci.Common().Args {
+				if mi, ok := a.(*ssa.MakeInterface); ok {
+					if nt := namedOf(mi.X.Type()); nt != nil && nt.Obj().Name() == "PacketData" {
+						isData = true
+					}
+				}
+			}
+			if !isData {
+				continue
+			}
+			flag, known := flagOf(ci)
+			// a closure stored into queueCfg.sendPkt is the retransmission callback
+			isResendCb := false
+			if fn.Parent() != nil {
+				fSendPkt := w.Field("gbn.queueCfg.sendPkt")
+				for _, st := range w.Stores(fSendPkt) {
+					if mc, ok := st.Val.(*ssa.MakeClosure); ok && mc.Fn == ssa.Value(fn) {
+						isResendCb = true
+					}
+				}
+			}
+			top := fn
+			for top.Parent() != nil {
+				top = top.Parent()
+			}
+			switch {
+			case isResendCb:
+				nResendCb++
+				c.decide(known && flag, "TMO-6", "sendPkt callback in "+fnName(top)+"|resend flag true", instrPos(ci), "the queue's retransmission callback reports isResend = true",
+					"a retransmission is reported to the timeout manager as a first transmission: its sample is kept and a later ACK updates the timeout from an ambiguous round trip")
+			case top == sl:
+				nFirst++
+				c.decide(known && !flag, "TMO-6", "sendLoop|first transmission reports resend flag false", instrPos(ci), "the first transmission reports isResend = false",
+					"the first transmission of a packet is reported as a retransmission: no sample is ever recorded (and the timeout is boosted for nothing)")
+			}
+		}
+	}
+	c.decide(nResendCb >= 2 && nFirst >= 1, "TMO-6", "call sites|retransmission callbacks and first transmission found", token.NoPos, fmt.Sprintf("%d retransmission callbacks, %d first-transmission sites", nResendCb, nFirst),
+		fmt.Sprintf("expected the two sendPkt callbacks and the first transmission in the send loop, found %d / %d", nResendCb, nFirst))
+	// the callbacks are only reachable from queue.resend
+	if fSendPkt := w.Field("gbn.queueCfg.sendPkt"); fSendPkt != nil {
+		bad := ""
+		for _, fn := range w.Funcs {
+			allInstrs(fn, func(in ssa.Instruction) {
+				if ci, ok := in.(ssa.CallInstruction); ok {
+					if f := chanField(ci.Common().Value); f == fSendPkt && fn != resend {
+						bad = fnName(fn)
+					}
+				}
+			})
+		}
+		c.decide(bad == "", "TMO-6", "sendPkt|called from queue.resend only", token.NoPos, "the callback that reports isResend = true is only used for retransmissions", "queueCfg.sendPkt is also called from "+bad+": a first transmission would be reported as a retransmission")
+	}
+	// (c)
+	{
+		calls := findCalls(rl, func(ci ssa.CallInstruction) bool { return ci.Common().StaticCallee() == recvd })
+		okk := len(calls) == 1
+		if okk {
+			call := calls[0]
+			// argument is the deserialized message, call is under "deserialize err == nil", and every type
+			// dispatch on the message is dominated by it
+			var des *ssa.Call
+			for _, ci := range findCalls(rl, func(ci ssa.CallInstruction) bool { return calleeNameIsCI(ci, "Deserialize") }) {
+				des, _ = ci.(*ssa.Call)
+			}
+			argOK := false
+			if des != nil {
+				if ex, ok := unwrapLoadAlloc(call.Common().Args[1]).(*ssa.Extract); ok && ex.Tuple == ssa.Value(des) && ex.Index == 0 {
+					argOK = true
+				}
+			}
+			domAll := true
+			allInstrs(rl, func(in ssa.Instruction) {
+				if ta, ok := in.(*ssa.TypeAssert); ok && des != nil {
+					if ex, ok := unwrapLoadAlloc(ta.X).(*ssa.Extract); ok && ex.Tuple == ssa.Value(des) && !instrDominates(call, ta) {
+						domAll = false
+					}
+				}
+			})
+			okk = argOK && domAll
+		}
+		c.decide(okk, "TMO-6", "receiveLoop|every parsed packet is reported", rl.Pos(), "Received(msg) with the parsed message dominates the dispatch on its type",
+			"the receive loop does not report every parsed packet to the timeout manager before acting on it: response samples are lost for some packet types")
+	}
+	// (d) handshakes
+	for _, hn := range []string{"(*gbn.GoBackNConn).clientHandshake", "(*gbn.GoBackNConn).serverHandshake"} {
+		hf := w.Func(hn)
+		if hf == nil {
+			continue
+		}
+		for _, ci := range findCalls(hf, func(ci ssa.CallInstruction) bool { return ci.Common().StaticCallee() == sent }) {
+			a := ci.Common().Args
+			phi, isPhi := unwrapLoadAlloc(a[2]).(*ssa.Phi)
+			okk := false
+			if isPhi {
+				hasFalse, hasTrue := false, false
+				seen := map[*ssa.Phi]bool{}
+				var walk func(p *ssa.Phi)
+				walk = func(p *ssa.Phi) {
+					if seen[p] {
+						return
+					}
+					seen[p] = true
+					for _, e := range p.Edges {
+						switch {
+						case isBoolConstVal(e, true):
+							hasTrue = true
+						case isBoolConstVal(e, false):
+							hasFalse = true
+						default:
+							if q, ok := e.(*ssa.Phi); ok {
+								walk(q)
+							}
+						}
+					}
+				}
+				walk(phi)
+				okk = hasFalse && hasTrue
+			}
+			c.decide(okk, "TMO-6", hf.Name()+"|SYN reported with the restart flag", instrPos(ci), "Sent(SYN, resent): false for the first SYN, true after a restart",
+				"the handshake reports its SYN to the timeout manager with a constant resend flag: a retransmitted SYN's round trip is used as a sample (or no handshake sample is ever taken)")
+		}
+	}
+	c.floor("TMO-6", 8)
 }
